@@ -539,10 +539,63 @@ def gen_case_history(rng, tier):
     return {'isa': isa, 'asm': asm, 'base': base, 'stmts': [f for f, _ in stmts], 'nvar': 2, 'history': True}
 
 
+def gen_case_set_history(rng, tier):
+    """priority inside ONE operand set against statement history: the set holds a higher-priority alternative (enumeration,
+    numeric_enumeration, numeric_bytecode, address) and a plain numeric one; some operand texts are accepted by the numeric
+    alternative only, others by both - and those must get the higher-priority alternative wherever they stand in the
+    program (two mnemonics share the set, so "what matched last" may also come from the other instruction)"""
+    regs = rng.sample(REGS, 2)
+    de = rng.choice(['big', 'little'])
+    gz = (0, 65535)
+    consts = {k: rng.randint(0, 250) for k in KEYS}
+    consts['kfoo'] = 201
+    al = Alloc()
+    hi_kind = rng.choice(['enumeration', 'enumeration', 'numeric_enumeration', 'numeric_bytecode', 'address'])
+    hy, hm = gen_alt(rng, al, hi_kind, regs, de, gz, 'hi', consts)
+    ly, lm = gen_alt(rng, al, 'numeric', regs, de, gz, 'lo', consts)
+    if hi_kind == 'address':
+        ly['argument']['size'] = 16
+        lm['arg']['n'] = 16
+    entries = [('hi', hy), ('lo', ly)]
+    if rng.random() < 0.5:
+        entries.reverse()                     # the order of the entries of the set carries no meaning
+    isa = {'description': 'c13s', 'general': {'address_size': 16, 'endian': de, 'registers': regs},
+           'operand_sets': {'ov': {'operand_values': dict(entries)}}, 'instructions': {}}
+    sets_m = [[hm, lm] if entries[0][0] == 'hi' else [lm, hm]]
+    for opc, mn in ((0x31, 'tst'),):
+        isa['instructions'][mn] = {'bytecode': {'value': opc, 'size': 8}, 'operands': {'count': 1, 'operand_sets': {'list': ['ov']}}}
+    variants_m = [{'opcode': {'v': 0x31, 'n': 8, 'little': de == 'little'}, 'count': 1, 'sets': {'sets': sets_m}}]
+
+    def only_low():
+        return rng.choice([({'f': 'plain', 'e': ('num', 200)}, '200'), ({'f': 'plain', 'e': ('label', 'kfoo')}, 'kfoo'),
+                           ({'f': 'plain', 'e': ('bin', '+', ('num', 199), ('num', 1))}, '199 + 1')])
+
+    def both():
+        if hi_kind == 'enumeration':
+            k = rng.choice([x for x, _ in hm['arg']['dict']])
+            return {'f': 'plain', 'e': ('label', k)}, k
+        if hi_kind == 'numeric_enumeration':
+            v = rng.choice([k for k, _ in hm['code']['dict']])
+        elif hi_kind == 'numeric_bytecode':
+            v = rng.choice([hm['min'], hm['max']])
+        else:
+            v = rng.choice([0, 5, 77])
+        return {'f': 'plain', 'e': ('num', v)}, str(v)
+    order = rng.choice([['low', 'both'], ['low', 'both', 'low', 'both'], ['both', 'low', 'both'], ['low', 'low', 'both', 'both']])
+    stmts = []
+    for w in order:
+        f, t = only_low() if (w == 'low' and hi_kind != 'address') else both()
+        stmts.append(([f], gen.rcase(rng, 'tst') + ' ' + t))
+    asm = ''.join(f'{k} = {v}\n' for k, v in consts.items()) + ''.join(t + '\n' for _, t in stmts)
+    base = {'op': 'stmt', 'regs': regs, 'gs': gz[0], 'ge': gz[1], 'env': [[k, v] for k, v in consts.items()],
+            'variants': variants_m}
+    return {'isa': isa, 'asm': asm, 'base': base, 'stmts': [f for f, _ in stmts], 'nvar': 1, 'history': True, 'set_history': True}
+
+
 def generate(rng, tier):
     n = 600 if tier == 'quick' else 15000
     return [gen_case(rng, tier) for _ in range(n)] + [gen_case_shadow(rng, tier) for _ in range(n // 6)] + \
-        [gen_case_history(rng, tier) for _ in range(n // 6)]
+        [gen_case_history(rng, tier) for _ in range(n // 6)] + [gen_case_set_history(rng, tier) for _ in range(n // 8)]
 
 
 def to_impl(case):
